@@ -251,6 +251,39 @@ Example metric_count_mismatch_malformed :
   exists body, metric_payload [105] [49] [50] 1 [] = Some body /\ json_validb body = false.
 Proof. eexists. split; [reflexivity|vm_compute; reflexivity]. Qed.
 
+(* mt.count always equals the number of keys in the map, for every sequence of insertions *)
+Lemma mt_invariant ops : mt_count (mt_run ops) = N.of_nat (length (mt_keys (mt_run ops))).
+Proof.
+  unfold mt_run. assert (G : forall t, mt_count t = N.of_nat (length (mt_keys t)) ->
+    mt_count (fold_left mt_merge ops t) = N.of_nat (length (mt_keys (fold_left mt_merge ops t)))).
+  { induction ops as [|[k refused] r IH]; intros t Ht; [exact Ht|]. cbn [fold_left]. apply IH.
+    unfold mt_merge.
+    destruct (existsb (fun k' => bytes_eqb (fst k) (fst k') && bytes_eqb (snd k) (snd k')) (mt_keys t)); [exact Ht|].
+    destruct refused; [exact Ht|]. cbn [mt_count mt_keys length]. rewrite Ht. lia. }
+  apply G. reflexivity.
+Qed.
+
+Theorem metric_payload_reachable ops id t0 t1 ms :
+  JsonNumber t0 -> JsonNumber t1 -> Forall entry_ok ms ->
+  map (fun m => (m_name m, m_scope m)) ms = mt_keys (mt_run ops) ->
+  exists body, metric_payload id t0 t1 (mt_count (mt_run ops)) ms = Some body /\
+               JsonT (metric_tree id t0 t1 ms) body /\ HasShape shape_metric body.
+Proof.
+  intros H0 H1 Hms Hk.
+  assert (Hc : 0 < mt_count (mt_run ops) <-> ms <> []).
+  { rewrite mt_invariant, <- Hk, map_length. destruct ms; cbn [length]; split; intros; try congruence; lia. }
+  destruct (metric_payload_valid id t0 t1 _ ms H0 H1 Hms Hc) as [body [E [_ [T S]]]].
+  exists body. auto.
+Qed.
+
+(* the code before fix dfc272c wrote the decoded names between bare quotes: not JSON for a name holding a quote *)
+Definition old_pkg_loop (buf : list N) (ps : list (list N * list N)) : list N :=
+  fold_left (fun b p => b ++ [LBR; QUOTE] ++ fst p ++ [QUOTE; COMMA; QUOTE] ++ snd p ++ [QUOTE] ++ s_pkg_tail) ps buf.
+Example old_filter_malformed :
+  json_validb (truncate1 (old_pkg_loop [LBR] [([97; 34; 98], [49])]) ++ [RBR]) = false /\
+  json_validb (truncate1 (pkg_loop [LBR] [([97; 34; 98], [49])]) ++ [RBR]) = true.
+Proof. split; vm_compute; reflexivity. Qed.
+
 (* ------------------------------------------------------------------ analyticsEvents.CollectorJSON *)
 
 Definition sampling_tree (rs es : list N) : jtree := JObj [(k_reservoir_size, JNum rs); (k_events_seen, JNum es)].
@@ -574,3 +607,8 @@ Proof.
   destruct (json_parse [123; 34; 97; 34; 58; 49; 125]) as [t|] eqn:E; [|discriminate E].
   pose proof (json_parse_sound _ _ E) as H. vm_compute in E. inversion E; subst. eexists. exact H.
 Qed.
+
+Example ex_reachable_hyp :
+  map (fun m => (m_name m, m_scope m)) [ex_entry] =
+  mt_keys (mt_run [((m_name ex_entry, m_scope ex_entry), false); ((m_name ex_entry, m_scope ex_entry), false); (([120], []), true)]).
+Proof. vm_compute. reflexivity. Qed.
